@@ -30,7 +30,7 @@ ASSUMPTIONS = [
     "the completed configuration compared with cfg/config.json",
 ]
 GATES = {
-    "nan_invalid_disparity": 1, "validation_step_with_a_suffixed_name_only": 1, "infinite_invalid_disparity": 1, "minus_infinity_invalid_disparity": 1, "two_or_more_bands": 1, "grids": 1, "georeferenced_input": 1, "validation_present": 2,
+    "nan_invalid_disparity": 1, "reference_system_without_authority_code": 1, "validation_step_with_a_suffixed_name_only": 1, "infinite_invalid_disparity": 1, "minus_infinity_invalid_disparity": 1, "two_or_more_bands": 1, "grids": 1, "georeferenced_input": 1, "validation_present": 2,
     "validation_absent": 2, "replayed_configurations": 5, "subprocess_runs": 1, "rasters_compared": 20, "right_input_with_its_own_georeferencing": 1,
     "save_results_on_synthetic_products": 20, "product_heights_around_128_256_512": 5,
 }
@@ -84,9 +84,17 @@ def build_config(rng, d, directed=False, tall=0):
     l, r = gen.stereo_pair(rng, rows, cols, gen.TEXTURES[int(rng.integers(0, 5))], max_shift=2, bands=nb)
     geo = bool(rng.integers(0, 2)) or directed
     names = ["r", "g", "b"] if nb == 3 else None
-    left = {"img": rasters.write_tif(os.path.join(d, "left.tif"), l, descriptions=names, georef=geo)}
+    # reference systems of several flavours: an EPSG code, a projection on an ellipsoid without datum (no authority code), a
+    # geographic system, a local engineering-like transverse Mercator
+    crs = ["EPSG:32631", "+proj=utm +zone=31 +ellps=WGS84 +units=m +no_defs", "EPSG:4326",
+           "+proj=tmerc +lat_0=12 +lon_0=3 +k=0.9996 +x_0=1000 +y_0=2000 +ellps=GRS80 +units=m +no_defs",
+           "+proj=lcc +lat_0=46.5 +lon_0=3 +lat_1=49 +lat_2=44 +x_0=700000 +y_0=6600000 +ellps=GRS80 +units=m +no_defs"][int(rng.integers(0, 5))]
+    if tall:
+        crs = "+proj=utm +zone=31 +ellps=WGS84 +units=m +no_defs"
+        geo = True
+    left = {"img": rasters.write_tif(os.path.join(d, "left.tif"), l, descriptions=names, georef=geo, crs=crs)}
     shifted = geo and (rng.random() < 0.6 or directed)
-    right = {"img": rasters.write_tif(os.path.join(d, "right.tif"), r, descriptions=names, georef=geo,
+    right = {"img": rasters.write_tif(os.path.join(d, "right.tif"), r, descriptions=names, georef=geo, crs=crs,
                                       origin=(500012.5, 4800003.0) if shifted else (500000.0, 4800000.0))}
     if rng.random() < 0.3:
         left["mask"] = rasters.write_tif(os.path.join(d, "lmask.tif"), (rng.random((rows, cols)) < 0.1).astype(np.int16), "int16")
@@ -122,7 +130,7 @@ def build_config(rng, d, directed=False, tall=0):
     n_conf = sum(1 for k in keys if pipes.kind_of(k) == "cost_volume_confidence")
     desc = {"pipeline": keys, "shape": [rows, cols], "bands": nb, "georef": geo, "grid": use_grid, "validation": validation,
             "invalid_disparity": inv, "n_conf_steps": n_conf, "right_georef_differs": bool(shifted),
-            "suffixed_validation_only": bool(validation and "validation" not in keys)}
+            "suffixed_validation_only": bool(validation and "validation" not in keys), "crs": crs if geo else None}
     return user, desc
 
 
@@ -132,6 +140,21 @@ def read_tree(out):
         for f in fs:
             tree[os.path.relpath(os.path.join(root, f), out)] = os.path.join(root, f)
     return tree
+
+
+def same_crs(a, b):
+    """Reference systems compared as rasterio does (definition, not text: the text form of a system without authority code is
+    lossy)."""
+    if a is None or b is None:
+        return a is None and b is None
+    try:
+        from rasterio.crs import CRS
+
+        ca = a if isinstance(a, CRS) else CRS.from_user_input(a)
+        cb = b if isinstance(b, CRS) else CRS.from_user_input(b)
+        return ca == cb and ca.to_wkt() == cb.to_wkt()
+    except Exception:  # pylint: disable=broad-except
+        return str(a) == str(b)
 
 
 def judge_tree(ctx, case, desc, out, saved_left, saved_right, input_profile, right_profile=None, expect_cfg=True):
@@ -179,7 +202,7 @@ def judge_tree(ctx, case, desc, out, saved_left, saved_right, input_profile, rig
                 ctx.gate("two_or_more_bands", int(len(names) >= 2))
             if desc["georef"]:
                 ip = right_profile if (side == "right" and right_profile is not None) else input_profile
-                if str(prof.get("crs")) != str(ip.get("crs")) or prof.get("transform") != ip.get("transform"):
+                if not same_crs(prof.get("crs"), ip.get("crs")) or prof.get("transform") != ip.get("transform"):
                     ctx.violation("georeferencing", f"{fname}: crs {prof.get('crs')} transform {prof.get('transform')} vs {side} input "
                                   f"{ip.get('crs')} {ip.get('transform')}", case, situation=fname, desc=desc)
     return tree
@@ -269,6 +292,7 @@ def run_case(case, ctx):
     _, _, in_prof_r = rasters.read_all(user["input"]["right"]["img"])
     ctx.gate("right_input_with_its_own_georeferencing", int(desc["right_georef_differs"] and desc["validation"]))
     ctx.gate("nan_invalid_disparity", int(desc["invalid_disparity"] == "NaN"))
+    ctx.gate("reference_system_without_authority_code", int(bool(desc["crs"]) and not desc["crs"].startswith("EPSG")))
     ctx.gate("validation_step_with_a_suffixed_name_only", int(desc["suffixed_validation_only"]))
     ctx.gate("infinite_invalid_disparity", int(desc["invalid_disparity"] in ("inf", "-inf")))
     ctx.gate("minus_infinity_invalid_disparity", int(desc["invalid_disparity"] == "-inf"))
